@@ -11,6 +11,7 @@ import Proofs.Lemmas.CimTypes
 import Proofs.Lemmas.CimUnpack
 import Proofs.Lemmas.TypedElems
 import Proofs.Lemmas.AtomicXml
+import Proofs.Lemmas.FloatText
 import Pywbem.Model.Utf8Decode
 import Pywbem.Model.FloatText
 import Proofs.Lemmas.DateTime
@@ -637,6 +638,43 @@ theorem C06_real_specials_all_bit_patterns (p bits : Nat) (he : bits / 2 ^ 52 % 
     · simp [hm, hs]; decide
     · simp [hm, hs]; decide
   · simp [hm]; decide
+
+/-- **`RealCodec.shape` discharged for the concrete formatter**: for every finite double (every bit pattern whose exponent
+    field is not 2047) and every precision, `fmtG` (the exact-arithmetic model of CPython's '%.<p>G' that K compares with
+    CPython on every generated value) produces a G text -/
+theorem C06_fmtG_shape (p bits : Nat) (hfin : bits / 2 ^ 52 % 2048 ≠ 2047) :
+    ∃ g : GText, g.ok = true ∧ Pywbem.Model.FloatText.fmtG p bits = g.render :=
+  fmtG_shape p bits hfin
+
+/-- hence **every finite real64 / real32 / float value is written as a DSP0201 realValue** (digits "." digits
+    [E sign digits]) and that text is read by unpack_numeric through float() — unconditionally, for all 2^64 − 2^53
+    finite bit patterns -/
+theorem C06_real_text_is_realvalue_for_all_doubles (p bits : Nat) (hfin : bits / 2 ^ 52 % 2048 ≠ 2047) (b : Nat) :
+    ∃ g : GText, g.isRealValue = true ∧ fixup (Pywbem.Model.FloatText.fmtG p bits) = g.render ∧
+      unpackNumeric (some b) (fixup (Pywbem.Model.FloatText.fmtG p bits)) .real64 = .ok (.real64 b) ∧
+      unpackNumeric (some b) (fixup (Pywbem.Model.FloatText.fmtG p bits)) .real32 = .ok (.real32 b) := by
+  obtain ⟨g, hg, hfmt⟩ := fmtG_shape p bits hfin
+  have hfix := C06_real_fixup_shape g hg
+  refine ⟨g.withFraction, hfix.2, by rw [hfmt, hfix.1], ?_, ?_⟩
+  · rw [hfmt, hfix.1]; exact (C06_real_text_parsed_by_float g.withFraction hfix.2 b).1
+  · rw [hfmt, hfix.1]; exact (C06_real_text_parsed_by_float g.withFraction hfix.2 b).2
+
+/-- **the real64 round trip on the concrete codec, with ONE remaining hypothesis**: if the concrete `floatOfText` reads
+    the written text of x back as x (`hrt`: the 17-significant-digits fact about two concrete, exact-arithmetic Lean
+    functions, tested by K on every generated value), then unpack_numeric returns Real64(x); the `shape` and `dot0`
+    hypotheses of `RealCodec` are not needed here -/
+theorem C06_real64_roundtrip_concrete_partial (x : Nat) (hfin : x / 2 ^ 52 % 2048 ≠ 2047)
+    (hrt : Pywbem.Model.FloatText.floatOfText (fixup (Pywbem.Model.FloatText.fmtG 17 x)) = some x) :
+    unpackNumeric (Pywbem.Model.FloatText.floatOfText (fixup (Pywbem.Model.FloatText.fmtG 17 x)))
+      (fixup (Pywbem.Model.FloatText.fmtG 17 x)) .real64 = .ok (.real64 x) := by
+  rw [hrt]
+  obtain ⟨_, _, _, h, _⟩ := C06_real_text_is_realvalue_for_all_doubles 17 x hfin x
+  exact h
+
+-- non-vacuity of `hrt`: it holds by evaluation for +0.0 and -0.0 (K reports the count for which it holds: all non-NaN values)
+example : Pywbem.Model.FloatText.floatOfText (fixup (Pywbem.Model.FloatText.fmtG 17 0)) = some 0 ∧
+    Pywbem.Model.FloatText.floatOfText (fixup (Pywbem.Model.FloatText.fmtG 17 (2 ^ 63))) = some (2 ^ 63) := by
+  decide
 
 /-- both zeros are written as `0.0` / `-0.0` (a DSP0201 realValue that keeps the sign) -/
 theorem C06_real_zeros (p bits : Nat) (he : bits / 2 ^ 52 % 2048 = 0) (hm : bits % 2 ^ 52 = 0) :
